@@ -33,17 +33,21 @@ CONSTANTS
     Enabled         \* set of action names switched on in this configuration
 
 None == "none"
+NoWill == -1          \* "no will message" among the (natural) will delay values
+(* will of a connection / pending delayed will of a client: records with a `has` flag (TLC cannot compare a record with None) *)
+NoW == [has |-> FALSE, m |-> "", t |-> <<>>, delay |-> 0]
+NoD == [has |-> FALSE, m |-> "", t |-> <<>>, due |-> 0]
 Conns == {ConnOrder[i] : i \in 1..Len(ConnOrder)}
 
 VARIABLES
-    conn,       \* connection -> [st, c, clean, rm, will]  st \in {"free","open","closed"}
+    conn,       \* connection -> [st, c, clean, rm, will]  st \in {"free","open","closed"}, will = [has, m, t, delay]
     sess,       \* client -> [on, expiry, discAt]   (on = a session exists)
     subs,       \* set of subscriptions [c, kind, g, f, qos, nl, rap, rh, id]
     retained,   \* topic -> message id or None
     outq,       \* client -> sequence of outbound records [pid, m, qos, t, origin, phase, tx] in publish order
     inq,        \* client -> set of packet ids of its QoS 2 publishes received and not yet released
     pidCur,     \* client -> last allocated packet id
-    delayed,    \* client -> pending delayed will [m, t, qos, retain, due] or None
+    delayed,    \* client -> pending delayed will [has, m, t, due]
     now,        \* clock
     nmsg,       \* messages published so far
     wire,       \* connection -> sequence of packets written to it (observation)
@@ -148,10 +152,10 @@ Connect(k, c, clean, rm, expiry, wd) ==
                                    THEN Resend([q EXCEPT ![i].phase = "sent", ![i].tx = TRUE], Send(w, k, Pkt("PUBLISH", q[i].pid, q[i].m, q[i].qos, TRUE, 0)), i + 1)
                               ELSE Resend(q, w, i + 1)
            rs  == Resend(q0, w2, 1)
-           oldWill == IF old # None THEN conn[old].will ELSE None
+           oldWill == IF old # None THEN conn[old].will ELSE NoW
        IN
        /\ conn' = LET me == [st |-> "open", c |-> c, clean |-> clean, rm |-> rm,
-                                will |-> IF wd = None THEN None ELSE [m |-> "w" \o k, t |-> <<"w">>, delay |-> MinOf(wd, expiry)]] IN
+                                will |-> IF wd = NoWill THEN NoW ELSE [has |-> TRUE, m |-> "w" \o k, t |-> <<"w">>, delay |-> MinOf(wd, expiry)]] IN
                   IF old # None THEN [conn EXCEPT ![k] = me, ![old].st = "closed"] ELSE [conn EXCEPT ![k] = me]
        /\ sess' = [sess EXCEPT ![c] = [on |-> TRUE, expiry |-> expiry, discAt |-> -1]]
        /\ subs' = IF sp THEN subs ELSE {s \in subs : s.c # c}
@@ -160,14 +164,14 @@ Connect(k, c, clean, rm, expiry, wd) ==
        /\ wire' = rs[2]
        \* a pending delayed will: cancelled by a resuming connection, due now otherwise (reported through log);
        \* the predecessor's own will (takeover = abnormal end) likewise
-       /\ delayed' = [delayed EXCEPT ![c] = None]
-       /\ log' = LET due == (IF delayed[c] # None /\ ~sp THEN <<delayed[c].m>> ELSE <<>>)
-                            \o (IF oldWill # None /\ (oldWill.delay = 0 \/ ~sp) THEN <<oldWill.m>> ELSE <<>>) IN
+       /\ delayed' = [delayed EXCEPT ![c] = NoD]
+       /\ log' = LET due == (IF delayed[c].has /\ ~sp THEN <<delayed[c].m>> ELSE <<>>)
+                            \o (IF oldWill.has /\ (oldWill.delay = 0 \/ ~sp) THEN <<oldWill.m>> ELSE <<>>) IN
                  log \o [i \in 1..Len(due) |-> [m |-> due[i], origin |-> c, t |-> <<"w">>, qos |-> 0, kind |-> "will", subsAt |-> {}, onlineAt |-> {}, full |-> {}, got |-> {}]]
        /\ fwd' = IF sp THEN fwd ELSE [x \in {y \in DOMAIN fwd : y[1] # c} |-> fwd[x]]
        /\ UNCHANGED <<retained, pidCur, now, nmsg>>
        /\ hist' = Append(hist, [op |-> "connect", k |-> k, id |-> c, clean |-> clean, rm |-> rm, sei |-> expiry,
-                                 will |-> wd # None, delay |-> IF wd = None THEN 0 ELSE wd])
+                                 will |-> wd # NoWill, delay |-> IF wd = NoWill THEN 0 ELSE wd])
 
 Subscribe(k, f, q, nl) ==
     /\ On("Subscribe") /\ Open(k)
@@ -189,7 +193,7 @@ Unsubscribe(k, f) ==
 Publish(k, t, q0, r, pid) ==
     /\ On("Publish") /\ Open(k) /\ nmsg < MaxMsgs
     /\ LET c == conn[k].c q == MinOf(q0, MaxQos) dup2 == q0 = 2 /\ pid \in inq[c] m == Msg(nmsg + 1) IN
-       /\ (q0 = 2 /\ ~dup2) => Cardinality(inq[c]) < SrvRecvMax          \* a well-behaved client stays within the quota
+       /\ (q0 > 0 /\ ~dup2) => Cardinality(inq[c]) < SrvRecvMax          \* a well-behaved client stays within the quota (a QoS 1 publish counts until its PUBACK)
        /\ \E ch \in SharedChoices(subs, t, LAMBDA d : TRUE) :
             LET ack == IF q0 = 1 THEN Send(wire, k, Pkt("PUBACK", pid, "", 0, FALSE, 0))
                        ELSE IF q0 = 2 THEN Send(wire, k, Pkt("PUBREC", pid, "", 0, FALSE, 0)) ELSE wire IN
@@ -236,9 +240,9 @@ Close(k, normal) ==
        /\ conn' = [conn EXCEPT ![k].st = "closed"]
        /\ sess' = [sess EXCEPT ![c] = IF ends THEN [on |-> FALSE, expiry |-> 0, discAt |-> -1] ELSE [@ EXCEPT !.discAt = now]]
        /\ IF ends THEN EndSession(c) ELSE UNCHANGED <<subs, outq, inq>>
-       /\ delayed' = IF ~normal /\ w # None /\ w.delay > 0 /\ ~ends
-                     THEN [delayed EXCEPT ![c] = [m |-> w.m, t |-> w.t, due |-> now + w.delay]] ELSE delayed
-       /\ log' = IF ~normal /\ w # None /\ (w.delay = 0 \/ ends)
+       /\ delayed' = IF ~normal /\ w.has /\ w.delay > 0 /\ ~ends
+                     THEN [delayed EXCEPT ![c] = [has |-> TRUE, m |-> w.m, t |-> w.t, due |-> now + w.delay]] ELSE delayed
+       /\ log' = IF ~normal /\ w.has /\ (w.delay = 0 \/ ends)
                  THEN Append(log, [m |-> w.m, origin |-> c, t |-> w.t, qos |-> 0, kind |-> "will", subsAt |-> {}, onlineAt |-> {}, full |-> {}, got |-> {}]) ELSE log
        /\ fwd' = IF ends THEN [x \in {y \in DOMAIN fwd : y[1] # c} |-> fwd[x]] ELSE fwd
        /\ hist' = Append(hist, [op |-> IF normal THEN "disconnect" ELSE "netdrop", k |-> k])
@@ -249,12 +253,12 @@ Tick ==
     /\ On("Tick") /\ now < MaxNow
     /\ now' = now + 1
     /\ LET dead == {c \in Clients : sess[c].on /\ ~Online(c) /\ sess[c].discAt >= 0 /\ sess[c].discAt + sess[c].expiry < now + 1}
-           dueW == {c \in Clients : delayed[c] # None /\ (delayed[c].due < now + 1 \/ c \in dead)} IN
+           dueW == {c \in Clients : delayed[c].has /\ (delayed[c].due < now + 1 \/ c \in dead)} IN
        /\ sess' = [c \in Clients |-> IF c \in dead THEN [on |-> FALSE, expiry |-> 0, discAt |-> -1] ELSE sess[c]]
        /\ subs' = {s \in subs : s.c \notin dead}
        /\ outq' = [c \in Clients |-> IF c \in dead THEN <<>> ELSE outq[c]]
        /\ inq'  = [c \in Clients |-> IF c \in dead THEN {} ELSE inq[c]]
-       /\ delayed' = [c \in Clients |-> IF c \in dueW THEN None ELSE delayed[c]]
+       /\ delayed' = [c \in Clients |-> IF c \in dueW THEN NoD ELSE delayed[c]]
        /\ log' = log \o [i \in 1..Cardinality(dueW) |-> LET c == SetToSeq(dueW)[i] IN
                            [m |-> delayed[c].m, origin |-> c, t |-> delayed[c].t, qos |-> 0, kind |-> "will", subsAt |-> {}, onlineAt |-> {}, full |-> {}, got |-> {}]]
        /\ fwd' = [x \in {y \in DOMAIN fwd : y[1] \notin dead} |-> fwd[x]]
@@ -262,16 +266,16 @@ Tick ==
     /\ UNCHANGED <<conn, retained, pidCur, nmsg, wire>>
 
 Init ==
-    /\ conn = [k \in Conns |-> [st |-> "free", c |-> "", clean |-> TRUE, rm |-> 0, will |-> None]]
+    /\ conn = [k \in Conns |-> [st |-> "free", c |-> "", clean |-> TRUE, rm |-> 0, will |-> NoW]]
     /\ sess = [c \in Clients |-> [on |-> FALSE, expiry |-> 0, discAt |-> -1]]
     /\ subs = {} /\ retained = [t \in Topics |-> None]
     /\ outq = [c \in Clients |-> <<>>] /\ inq = [c \in Clients |-> {}] /\ pidCur = [c \in Clients |-> 0]
-    /\ delayed = [c \in Clients |-> None] /\ now = 0 /\ nmsg = 0
+    /\ delayed = [c \in Clients |-> NoD] /\ now = 0 /\ nmsg = 0
     /\ wire = [k \in Conns |-> <<>>] /\ log = <<>> /\ fwd = <<>> /\ hist = <<>>
 
 Next ==
     \* (connections are interchangeable: the next one used is always the first free one of ConnOrder)
-    \/ \E c \in Clients, clean \in BOOLEAN, rm \in RecvMaxSet, x \in ExpirySet, wd \in WillDelaySet \cup {None} :
+    \/ \E c \in Clients, clean \in BOOLEAN, rm \in RecvMaxSet, x \in ExpirySet, wd \in WillDelaySet \cup {NoWill} :
           \E i \in 1..Len(ConnOrder) : /\ conn[ConnOrder[i]].st = "free" /\ \A j \in 1..(i - 1) : conn[ConnOrder[j]].st # "free"
                                        /\ Connect(ConnOrder[i], c, clean, rm, x, wd)
     \/ \E k \in Conns, f \in Filters, q \in QosSet, nl \in BOOLEAN : Subscribe(k, f, q, nl /\ f[1] # "$share")
@@ -283,6 +287,9 @@ Next ==
     \/ Tick
 
 Spec == Init /\ [][Next]_vars
+(* FairSpec / DeferredEventuallySent state the liveness half of C11 for the design; no registered configuration   *)
+(* checks them with TLC (the observation variables wire/hist grow without bound, so the unconstrained graph is   *)
+(* infinite); on the implementation that half is judged at the "mark drained" lines of the recorded traces.      *)
 FairSpec == Spec /\ \A k \in Conns, i \in 1..3 : WF_vars(Ack(k, i))
 
 (* ================================================================== properties *)
